@@ -63,6 +63,9 @@ def run_traces(ck, jobs, out, precs=("d",), variant="verif", check_id=None, keep
             ck.case(key, sample={"job": pipe.job_line({k: v for k, v in j.items() if k != "out"}), "precision": prec, "events": nl,
                                  "etree": cfg["etree"][:12], "info": res.get("info") if res else None} if len(ck.cov["samples"]) < 5 else None)
             msg = None
+            if tlc.inconclusive(r):
+                ck.notes["traces_not_decided_by_TLC_within_the_time_limit"] = ck.notes.get("traces_not_decided_by_TLC_within_the_time_limit", 0) + 1
+                continue
             if not r["ok"]:
                 msg = "trace of the real code rejected: " + pipe.explain(r, j["out"])
             elif judge:
